@@ -77,30 +77,44 @@ func (c *vrcCache) read(opts *cache.Opts, paths [][]string) []*cache.Update {
 	result := []*cache.Update{}
 	switch opts.Store {
 	case cachepb.Store_INTENDED:
+		// the read semantics of the cache (github.com/sdcio/cache v0.0.35, readFromIntendedStore): the key is the joined path
+		// and, only for a priority > 0, that priority and the owner; with priority 0 the owner is NOT part of the key and the
+		// entries of the best PriorityCount (at least one) priorities of each stored path come back, whoever owns them; with a
+		// negative priority all entries come back. Keys match by prefix: a path also selects what is stored below it.
 		for _, p := range paths {
-			cands := []*cache.Update{}
+			byPath := map[string][]*cache.Update{}
 			for _, u := range c.intended {
-				if !slices.Equal(u.GetPath(), p) || (opts.Owner != "" && u.Owner() != opts.Owner) {
+				if len(u.GetPath()) < len(p) || !slices.Equal(u.GetPath()[:len(p)], p) {
 					continue
 				}
-				cands = append(cands, u)
-			}
-			sort.Slice(cands, func(i, j int) bool { return cands[i].Priority() < cands[j].Priority() })
-			if opts.PriorityCount > 0 {
-				prios := map[int32]struct{}{}
-				filtered := []*cache.Update{}
-				for _, u := range cands {
-					if _, known := prios[u.Priority()]; !known {
-						if uint64(len(prios)) >= opts.PriorityCount {
-							break
-						}
-						prios[u.Priority()] = struct{}{}
-					}
-					filtered = append(filtered, u)
+				if opts.Priority > 0 && (u.Priority() != opts.Priority || (opts.Owner != "" && u.Owner() != opts.Owner)) {
+					continue
 				}
-				cands = filtered
+				k := strings.Join(u.GetPath(), "\x01")
+				byPath[k] = append(byPath[k], u)
 			}
-			result = append(result, cands...)
+			for _, cands := range byPath {
+				sort.Slice(cands, func(i, j int) bool { return cands[i].Priority() < cands[j].Priority() })
+				if opts.Priority == 0 {
+					count := opts.PriorityCount
+					if count == 0 {
+						count = 1
+					}
+					prios := map[int32]struct{}{}
+					filtered := []*cache.Update{}
+					for _, u := range cands {
+						if _, known := prios[u.Priority()]; !known {
+							if uint64(len(prios)) >= count {
+								break
+							}
+							prios[u.Priority()] = struct{}{}
+						}
+						filtered = append(filtered, u)
+					}
+					cands = filtered
+				}
+				result = append(result, cands...)
+			}
 		}
 	default:
 		for _, p := range paths {
@@ -386,7 +400,9 @@ func TestVerifReplayConverge(t *testing.T) {
 					break
 				}
 			} else if err := d.TransactionConfirm(ctx, id); err != nil {
-				t.Fatalf("%s: confirm: %v", in, err)
+				// an accepted, applied transaction is open until it is confirmed
+				fmt.Printf("REPLAY-FAIL fn=%s clause=accepted_run_is_applied input=%s why=the transaction was accepted, yet it cannot be confirmed: %v\n", fnLL, in, err)
+				break
 			}
 			// C09
 			if unchanged && (len(rsp.GetUpdate()) > 0 || len(rsp.GetDelete()) > 0) {
